@@ -6,8 +6,8 @@
    correspondence run (recover(), watchdog), not proved. *)
 From Coq Require Import List Bool ZArith Lia.
 Import ListNotations.
-From Rosed Require Import Base.Res Base.ListX Base.Utf8 Gem.Segment Gem.GString Model.Manip Model.Table Model.Options Model.Editor Model.Ops
-     Proofs.C04P Proofs.C14P Proofs.C18P Proofs.SeamP Proofs.C18Q Proofs.C18R Proofs.C14R Proofs.C18S.
+From Rosed Require Import Base.Res Base.ListX Base.Utf8 Base.Str Gem.Segment Gem.GString Model.Manip Model.Table Model.Options Model.Editor Model.Ops
+     Proofs.C04P Proofs.C14P Proofs.C18P Proofs.SeamP Proofs.C18Q Proofs.C18R Proofs.C14R Proofs.C18S Proofs.C18T.
 Open Scope Z_scope.
 
 (* Chars / Insert / Delete / Overtype on any valid UTF-8 text, any integer positions *)
@@ -108,3 +108,29 @@ Print Assumptions C18_justify_editor_all.
 Theorem C18_indent_editor_all : forall (C : Classifier) (K : ClassifierOk) (U : Upper) level opts e, exists r, indent_opts level opts e = Ok r.
 Proof. intros C K U. exact indent_opts_total_all. Qed.
 Print Assumptions C18_indent_editor_all.
+
+(* valid UTF-8 out. What an operation writes is the encoding of a list of code points - valid
+   whatever they are, the encoder writes U+FFFD for a value that is not a scalar - or a separator
+   from the options, or a concatenation of such pieces *)
+Theorem C18_encoding_is_valid : forall rs, valid_utf8 (encode rs) = true.
+Proof. exact encode_valid. Qed.
+Print Assumptions C18_encoding_is_valid.
+
+Theorem C18_valid_concat : forall a b sep l,
+  (valid_utf8 a = true -> valid_utf8 b = true -> valid_utf8 (a ++ b) = true) /\
+  (valid_utf8 sep = true -> Forall (fun x => valid_utf8 x = true) l -> valid_utf8 (join sep l) = true).
+Proof. intros a b sep l. exact (conj (valid_app a b) (valid_join sep l)). Qed.
+Print Assumptions C18_valid_concat.
+
+(* CollapseSpace and Wrap (outside paragraph mode): valid output for every input, valid or not;
+   Align (outside paragraph mode): valid output for a valid text and a valid line separator *)
+Theorem C18_valid_layout : forall (C : Classifier) (U : Upper) width align opts e r,
+  (collapse_space_opts opts e = Ok r -> valid_utf8 (e_text r) = true) /\
+  (o_preserve (with_defaults opts) = false -> wrap_opts width opts e = Ok r -> valid_utf8 (e_text r) = true) /\
+  (o_preserve (with_defaults opts) = false -> valid_utf8 (o_linesep (with_defaults opts)) = true -> valid_utf8 (e_text e) = true ->
+   align_opts align width opts e = Ok r -> valid_utf8 (e_text r) = true).
+Proof.
+  intros C U width align opts e r.
+  exact (conj (collapse_space_valid opts e r) (conj (wrap_valid width opts e r) (align_valid align width opts e r))).
+Qed.
+Print Assumptions C18_valid_layout.
